@@ -58,7 +58,7 @@ theorem ascii_only (feats : Features) (f : Fmt) (fmt : Format) (o : WOpts) (debu
     ∀ b ∈ w.bytes.take w.len, b < 128 := by
   have hvo := validOpts_of_build o hv
   show Asc (w.bytes.take w.len)
-  unfold writeFloat at h
+  unfold writeFloat writeFloatB at h
   dsimp only at h
   split at h
   · cases h
